@@ -361,6 +361,14 @@ func (a *ownAnalysis) lenLowerBoundKey(fc *FCFG, n ast.Node, stack []ast.Node, k
 					lb = sub
 				}
 			}
+			// the per-element test made by a checking helper: `if lerr := checkLetPair(env, x); lerr != nil { return lerr }`
+			for _, bs := range lbody {
+				if is, ok := bs.(*ast.IfStmt); ok {
+					if sub := a.checkingHelperBound(is, xkey); sub > lb {
+						lb = sub
+					}
+				}
+			}
 			return true
 		})
 	}
@@ -402,6 +410,39 @@ func (a *ownAnalysis) lenLowerBoundKey(fc *FCFG, n ast.Node, stack []ast.Node, k
 				}
 				skey0 := a.resolvedKey(arg, 0)
 				if skey0 == "" {
+					continue
+				}
+				// the helper is handed the very value and checks ITS shape (`if lerr := checkLetPair(env, bind);
+				// lerr != nil { return lerr }` in front of bind.Cells[1], same block or an enclosing one): what
+				// the refusals inside the helper establish holds after its nil answer
+				if skey0 == key {
+					inFront := false
+					for _, sn := range stack {
+						if bl, ok := sn.(*ast.BlockStmt); ok {
+							for _, st := range bl.List {
+								if st == ast.Stmt(is) {
+									inFront = true
+								}
+							}
+						}
+					}
+					rets := returnsOf(hd.Body)
+					hinfo := hu.Pkg.TypesInfo
+					nilOnlyLast := len(rets) > 0
+					for i, r := range rets {
+						if len(r.Results) == 1 && isNilIdent(hinfo, r.Results[0]) && i != len(rets)-1 {
+							nilOnlyLast = false
+						}
+					}
+					if inFront && nilOnlyLast {
+						ha := newOwnAnalysis(a.c, hu)
+						refuses := func(rs *ast.ReturnStmt) bool { return len(rs.Results) == 1 && !isNilIdent(hinfo, rs.Results[0]) }
+						for _, cond := range returnGuardsIf(hd.Body.List, refuses) {
+							if sub := ha.guardBound(cond, fmt.Sprintf("%p", hps[ai])); sub > lb {
+								lb = sub
+							}
+						}
+					}
 					continue
 				}
 				applies := false
@@ -1648,4 +1689,61 @@ func returnGuardsIf(list []ast.Stmt, keep func(*ast.ReturnStmt) bool) []ast.Expr
 		}
 	}
 	return out
+}
+
+// checkingHelperBound: `is` is `if lerr := h(…, X, …); lerr != nil { …; return }` with h an unexported-or-not
+// function of the package that answers nil only by falling off the end of its checks, and X the value under
+// key: the lower bound on len(X.Cells) that the refusals inside h establish for its nil answer (0 otherwise).
+func (a *ownAnalysis) checkingHelperBound(is *ast.IfStmt, key string) int {
+	info := a.info
+	if len(is.Body.List) == 0 {
+		return 0
+	}
+	if _, isRet := is.Body.List[len(is.Body.List)-1].(*ast.ReturnStmt); !isRet {
+		return 0
+	}
+	var call *ast.CallExpr
+	var resObj types.Object
+	if as, ok := is.Init.(*ast.AssignStmt); ok && len(as.Lhs) == 1 && len(as.Rhs) == 1 {
+		call, _ = ast.Unparen(as.Rhs[0]).(*ast.CallExpr)
+		resObj = identObj(info, as.Lhs[0])
+	}
+	if call == nil || resObj == nil {
+		return 0
+	}
+	be, ok := ast.Unparen(is.Cond).(*ast.BinaryExpr)
+	if !ok || be.Op != token.NEQ || identObj(info, be.X) != resObj || !isNilIdent(info, be.Y) {
+		return 0
+	}
+	h := originOf(Callee(info, call))
+	hd := a.c.declOf[h]
+	if h == nil || hd == nil || hd.Body == nil || h.Pkg() != a.u.Obj.Pkg() {
+		return 0
+	}
+	hu := FuncUnit{h, hd, a.c.pkgOf[hd]}
+	hps := paramObjs(hu)
+	hinfo := hu.Pkg.TypesInfo
+	rets := returnsOf(hd.Body)
+	if len(rets) == 0 {
+		return 0
+	}
+	for i, r := range rets {
+		if len(r.Results) == 1 && isNilIdent(hinfo, r.Results[0]) && i != len(rets)-1 {
+			return 0
+		}
+	}
+	lb := 0
+	for ai, arg := range call.Args {
+		if ai >= len(hps) || a.resolvedKey(arg, 0) != key {
+			continue
+		}
+		ha := newOwnAnalysis(a.c, hu)
+		refuses := func(rs *ast.ReturnStmt) bool { return len(rs.Results) == 1 && !isNilIdent(hinfo, rs.Results[0]) }
+		for _, cond := range returnGuardsIf(hd.Body.List, refuses) {
+			if sub := ha.guardBound(cond, fmt.Sprintf("%p", hps[ai])); sub > lb {
+				lb = sub
+			}
+		}
+	}
+	return lb
 }
